@@ -8,7 +8,7 @@ NEEDS_BINARY = True
 TEXT = ["'", '"', "%", "_", "\\", ";", "--", ")", "(", "a", "b", "x y", "é", "日", "DROP", "=", "$X", "*", "|"]
 DIRS = ["d", "d'q", "per%cent", "under_score", "sp ace", "q\"q", "é", "a;b", "back\\slash", "x--y", "p)q"]
 RULE = ("random sequences (<= 12) of add / list-with-pattern / delete operations, each run by its own shell process on one shared database, "
-        "with line texts, search patterns and working-directory names over an alphabet with ' \" % _ \\ ; -- ) and multi-byte characters; the "
+        "with line texts (also rows of 34-64 KB, deleted together with later rows), search patterns and working-directory names over an alphabet with ' \" % _ \\ ; -- ) and multi-byte characters; the "
         "table is read back with an independent SQLite client (python sqlite3) and compared with the Lean model and spec (rows, order, "
         "listing results); `prompt`: sessions of 2-8 lines typed at one interactive prompt on a pseudo-terminal (repeats, repeats separated by a "
         "space-led or blank line, trailing blanks), rows read back with the independent client and compared with the model of the prompt "
@@ -40,7 +40,11 @@ def process(tier, rng, cicada):
         nrows = 0
         for _ in range(2 + r.below(11)):
             k = r.below(10)
-            if k <= 5 or nrows == 0:
+            if (k <= 5 or nrows == 0) and r.chance(1, 12):
+                # a row of several database pages (deleting it frees enough pages for a storage engine to want to compact)
+                ops.append(("A", r.choice(DIRS), "echo " + "y" * (34000 + r.below(30000))))
+                nrows += 1
+            elif k <= 5 or nrows == 0:
                 while True:
                     line = gens.rand_string(r, TEXT, 1, 5)
                     if r.chance(1, 8):
@@ -57,6 +61,9 @@ def process(tier, rng, cicada):
                 ops.append(("L", pat))
             else:
                 ops.append(("D", sorted(set(1 + r.below(nrows + 1) for _ in range(1 + r.below(2))))))
+        if i == 0:
+            ops = [("A", "d", "echo one"), ("A", "d", "echo " + "y" * 57000), ("A", "d", "echo three"), ("A", "d", "echo four"), ("A", "d", "echo five"),
+                   ("D", [2, 4]), ("L", ""), ("A", "d", "echo six"), ("D", [1, 6])]
         enc = ";".join("A:%s:%s" % (hx(o[1]), hx(o[2])) if o[0] == "A" else ("L:%s" % hx(o[1]) if o[0] == "L" else "D:%s" % ".".join(map(str, o[1]))) for o in ops)
         c = Case("hist", [enc], {"gen": "p", "ops": ops})
         c.id = "p%d" % i
